@@ -122,6 +122,9 @@ type Plan struct {
 	Names *NamePlan `json:",omitempty"`
 	// Rej: what the peers answer to a rebroadcast while Stop runs (rebroad.go).
 	Rej *RejPlan `json:",omitempty"`
+	// Start: the start-state family (startstate.go): a client that was never
+	// started / whose Start failed / that is stopped twice.
+	Start *StartPlan `json:",omitempty"`
 }
 
 func (p Plan) Point() string {
